@@ -289,7 +289,8 @@ func (e *Env) abs(p string) string {
 	if filepath.IsAbs(p) || e.Cwd == "" {
 		return p
 	}
-	return filepath.Join(e.Cwd, p)
+	// no lexical cleaning: "dir/../x" must be resolved by the kernel (dir may be a symbolic link)
+	return e.Cwd + "/" + p
 }
 
 func killGroup() {
@@ -490,6 +491,13 @@ func Exec(args []string, env *Env) int {
 	}
 	if ex := opts["extra"]; ex != "" {
 		for _, rel := range strings.Split(ex, ",") {
+			if k := strings.Index(rel, "@@"); k > 0 {
+				// an additional file that is a symbolic link (tools leave 'latest' links behind)
+				full := env.abs(rel[:k])
+				os.MkdirAll(filepath.Dir(full), 0777)
+				os.Symlink(rel[k+2:], full)
+				continue
+			}
 			full := env.abs(rel)
 			os.MkdirAll(filepath.Dir(full), 0777)
 			os.WriteFile(full, ExtraContent(c.ID, rel), 0644)
